@@ -74,6 +74,7 @@ package federation
 // dereference) in the entity resolvers and the helpers they call (D34: nested @requires selections were read with
 // unchecked assertions); user resolvers may panic, which is contained (noescape).
 //@ family fedentity [C20,C04,C10]
+//@   replay fedRequiresShape.go.tmpl for nopanic
 //@   requires ec != nil
 //@   userdata entity
 //@   noescape
@@ -87,6 +88,7 @@ package federation
 //@ family fedmany [C20,C04,C10]
 //@   replay fedMissingKey.go.tmpl
 //@   replay fedRequiresShape.go.tmpl for nopanic
+//@   replay fedBatchAbort.go.tmpl for inloop
 //@   requires ec != nil
 //@   userdata entity
 // (the indexes were produced by buildRepresentationGroups from positions of the representation list, which is as long
